@@ -9,6 +9,7 @@ From Similari Require Import Base.Num Model.Kalman.
 From Similari Require Export Proofs.KalmanBase Proofs.KalmanEntries Proofs.KalmanUpdate Proofs.KalmanScalar
      Proofs.KalmanScalarUpd Proofs.KalmanRun Proofs.KalmanDistance Proofs.KalmanSPD Proofs.KalmanVec.
 From SimilariGen Require Import Consts.
+From SimilariGen Require ScalarCost.
 Import ListNotations.
 Local Open Scope R_scope.
 
@@ -252,3 +253,10 @@ Proof.
     + assert (d == CHI2_UPPER_BOUND) by (rewrite <- (Qplus_0_l d), <- H; ring).
       rewrite H2 in H1. exfalso. apply (Qlt_irrefl _ H1).
 Qed.
+
+(* the hand model of the cost conversion IS the function translated from the Rust source (by computation on the
+   closed constants; breaks - as it should - when the translated text stops meaning the same) *)
+Lemma cost_hand_model_is_translation : forall (d : Q) (inverted : bool),
+    Kalman.box_calculate_cost Qops d inverted = ScalarCost.box_calculate_cost Qops d inverted
+    /\ Kalman.point_calculate_cost Qops d inverted = ScalarCost.point_calculate_cost Qops d inverted.
+Proof. intros d inverted. split; reflexivity. Qed.
